@@ -15,6 +15,7 @@ def run_design(args):
     tid, fam, D, style, entries = args
     from ..hd import h
     ev = {"tid": tid, "fam": fam, "D": D, "style": style, "raised": False, "accepted": [], "P": EMPTY_P, "exc": ""}
+    top = None
     try:
         top = build(h, D, style)
         pkg = h.to_proto(top)
@@ -23,6 +24,20 @@ def run_design(args):
     except Exception as ex:
         ev["raised"] = True
         ev["exc"] = f"{type(ex).__name__}: {str(ex).strip().splitlines()[-1][:200] if str(ex).strip() else ''}"
+        # repeated attempts on the SAME objects: a faulty design must keep being refused
+        if entries and top is not None:
+            for name in ("to_proto", "netlist", "elaborate", "to_proto"):
+                try:
+                    if name == "netlist":
+                        h.netlist(top, io.StringIO(), fmt="spice")
+                    elif name == "elaborate":
+                        h.elaborate(top)
+                    else:
+                        h.to_proto(top)
+                    ev["accepted"].append("retry_" + name)
+                    break
+                except Exception:
+                    pass
         # the other entry points, each on a fresh copy of the design (only needed to decide fault rejection)
         for name in entries:
             try:
